@@ -64,6 +64,11 @@ TOOLS_FOR = {
 VERSION = {"muscle3": "MUSCLE v3.8.31 by Robert C. Edgar", "muscle5": "muscle 5.1.linux64 []"}
 
 
+# join(timeout=0): the time-out has already run out when the call is made - for the life-cycle model this
+# is join(timeout): immediately JOINED from a finished run, TimeoutError + CANCELLED from a running one
+MODEL_OP = {"join_0": "join_t"}
+
+
 def model_tool(tool):
     """KILLED (the program writes its complete, parseable output and is then killed by a signal: negative
     return code) is a run that does not end well - in the life-cycle model it is the NONZERO behaviour"""
@@ -426,6 +431,33 @@ class Run:
                 self.app.join()
             elif op == "join_t":
                 self.app.join(timeout=JOIN_TIMEOUT)
+            elif op == "join_0":
+                # must return at once; if it blocks on the gated child, the child is killed after 5 s
+                # so that the call comes back, and the outcome is 'Blocked'
+                import threading
+
+                fired = []
+
+                def rescue():
+                    fired.append(1)
+                    try:
+                        self.app._process.kill()
+                    except Exception:  # noqa: BLE001
+                        pass
+
+                timer = threading.Timer(5.0, rescue)
+                timer.start()
+                try:
+                    try:
+                        self.app.join(timeout=0)
+                    finally:
+                        timer.cancel()
+                except BaseException:  # noqa: BLE001
+                    if fired:
+                        return "Blocked"
+                    raise
+                if fired:
+                    return "Blocked"
             elif op == "cancel":
                 self.app.cancel()
             elif op == "get_app_state":
@@ -568,7 +600,7 @@ def simulate_step(cur, op, got_out, obs, has_files):
     """Returns (set of matching successor states, mismatch description or None)."""
     cands = []
     for s in cur:
-        cands.extend(succ(s, op))
+        cands.extend(succ(s, MODEL_OP.get(op, op)))
     matching = set()
     best = None
     for mo, s2 in cands:
@@ -619,7 +651,7 @@ def run_path(ctx, wrapper, tool, ops, strings=("ab", "a"), seqtype="protein", ch
             for s in cur:
                 ctx.state(s)
             got = run.do(op)
-            ends = op in ("cancel", "join_t", "join", "start")
+            ends = op in ("cancel", "join_t", "join_0", "join", "start")
             obs = run.observe(expect_dead_child=ends and got != "AppStateError" and run.app._state.name in
                               ("CANCELLED", "JOINED"))
             ctx.transition()
@@ -791,6 +823,12 @@ def run_shard(shard, ctx):
                                            "ops": ops})):
                 continue
             run_path(ctx, shard["wrapper"], shard["tool"], ops)
+            if "join_t" in ops:
+                ops0 = ["join_0" if o == "join_t" else o for o in ops]
+                if ctx.journal(json.dumps({"kind": "path", "wrapper": shard["wrapper"], "tool": shard["tool"],
+                                           "ops": ops0})):
+                    ctx.ev(1, 1 if nontriv else 0)
+                    run_path(ctx, shard["wrapper"], shard["tool"], ops0)
             if len(ctx.samples) < 2 and len(ops) == depth and "release" in ops:
                 ctx.sample({"wrapper": shard["wrapper"], "tool": shard["tool"], "ops": ops})
     else:
@@ -817,7 +855,7 @@ def run_shard(shard, ctx):
 # by a virtual clock, so 'the job finishes' (release) and 'time passes' (tick: more than the join
 # time-out elapses) are environment events of the alphabet like any other.
 # ---------------------------------------------------------------------------
-GEN_OPS = ["start", "release", "tick", "join", "join_t", "cancel", "get_app_state", "get_result"]
+GEN_OPS = ["start", "release", "tick", "join", "join_t", "join_0", "cancel", "get_app_state", "get_result"]
 GEN_TIMEOUT = 1.0
 GEN_TICK = 5.0
 
@@ -904,7 +942,7 @@ def gen_model(m, op):
         if eff not in ("RUNNING", "FINISHED"):
             return "AppStateError", (eff, done, cl, ev)
         return "ok", ("CANCELLED", done, cl + 1, ev)
-    if op in ("join", "join_t"):
+    if op in ("join", "join_t", "join_0"):
         if eff not in ("RUNNING", "FINISHED"):
             return "AppStateError", (eff, done, cl, ev)
         if done:
@@ -933,6 +971,8 @@ def gen_do(app, clock, op):
             app.join()
         elif op == "join_t":
             app.join(timeout=GEN_TIMEOUT)
+        elif op == "join_0":
+            app.join(timeout=0)
         elif op == "cancel":
             app.cancel()
         elif op == "get_app_state":
@@ -961,7 +1001,7 @@ def gen_step_ok(ctx, ev, hist, op, m, app, clock):
     case = {"kind": "generic", "eval": ev, "ops": hist + [op]}
     frm = "FINISHED" if (m[0] == "RUNNING" and m[1]) else m[0]
     late = (clock.now - getattr(app, "_start_time", clock.now)) > GEN_TIMEOUT
-    cls = "%s|from=%s%s" % (op, frm, "|late" if late and op in ("join", "join_t") else "")
+    cls = "%s|from=%s%s" % (op, frm, "|late" if late and op in ("join", "join_t", "join_0") else "")
     if got != want:
         ctx.violation("mini_generic|%s|outcome:%s_instead_of_%s" % (cls, got, want),
                       "generic Application: %s returned/raised %s, the life cycle demands %s" % (op, got, want),
